@@ -2,7 +2,7 @@
 REG = dict(
     engine='E1-enum',
     technique='exhaustive enumeration of test files (every sequence of <=3 tests over 8 test kinds) x every name filter x one- and two-file invocations, run through the real `garden test` and compared with the single-test runs',
-    text="Every sequence of 1..3 tests over 8 kinds (pass; assertion failure; exception three frames deep; exception inside nested blocks with locals; test defining locals that shadow a global function and a name another test reads; test calling the global function another test shadows; test reading a variable only another test defines) is written to a file and run with no filter, the empty filter, every substring of every test name (names are chosen so that these are exactly 6 strings selecting every 1- and 2-element subset) and a filter matching nothing (quick: 3-test files only unfiltered and one test at a time); two-file invocations split the same sequences over two files (1+1 in quick; 1+2 and 2+1 in thorough). Oracle, from the statement: exit status != 0 iff a selected test is reported failed; the summary line's total equals the number of tests whose name contains the filter and its passed/failed counts equal the reported verdicts; each test's verdict equals its verdict when run alone with `-n <its name>`.",
+    text="Every sequence of 1..3 tests over 8 kinds (pass; assertion failure; exception three frames deep; exception inside nested blocks with locals; test defining locals that shadow a global function and a name another test reads; test calling the global function another test shadows; test reading a variable only another test defines) is written to a file and run with no filter, the empty filter, every substring of every test name (names are chosen so that these are exactly 6 strings selecting every 1- and 2-element subset) and a filter matching nothing (quick: 3-test files only unfiltered and one test at a time); two-file invocations split the same sequences over two files (1+1 in quick; 1+2 and 2+1 in thorough). Oracle, from the statement: exit status != 0 iff a selected test is reported failed; the summary line's total equals the number of tests whose name contains the filter and its passed/failed counts equal the reported verdicts; each test's verdict equals its verdict when run alone with `-n <its name>`. Plus 2 and 3 files that each define a test of the same name with different bodies (pass / assertion failure / exception three calls deep), with and without a filter: the number of failures is the number of failing bodies, and the exit status follows.",
     note='Interrupted tests: five files with an endless test are interrupted by a real SIGINT once the test is demonstrably running; the run must exit non-zero, list the interrupted test as failed and print consistent counts. `garden test` prints only failed tests, so a passed verdict is "selected and not listed as failed". "No tests found." with exit 0 is accepted when nothing is selected. Tests hitting resource limits are not generated: `garden test` sets no limits.',
     design_ref='DESIGN.md §6 C26',
 )
@@ -132,6 +132,42 @@ def interrupted_family(ctx, root):
             ctx.violation(f"tests [{label}] interrupted by SIGINT: the interrupted test has no failed verdict", detail)
         elif summary is not None and summary[2] != len(failed):
             ctx.violation(f"tests [{label}] interrupted by SIGINT: summary counts differ from the listed verdicts", detail)
+    return n
+
+
+def same_name_family(ctx, root):
+    """Two (and three) files that each define a test of the same name with different bodies: every selected test runs its own body, so
+    the number of failures is the number of failing bodies whatever the order of the files, and the exit status follows."""
+    n = 0
+    kinds = ["pass", "assert-fail", "throw-3-deep"]
+    for nfiles in (2, 3):
+        for combo in itertools.product(kinds, repeat=nfiles):
+            if len(set(combo)) == 1 and nfiles == 3:
+                continue
+            d = os.path.join(root, "same_" + "_".join(combo))
+            os.makedirs(d, exist_ok=True)
+            paths = []
+            for i, k in enumerate(combo):
+                with open(os.path.join(d, f"s{i}.gdn"), "w") as fh:
+                    fh.write(HELPERS + f"test same_name {{\n  {KINDS[k][0]}\n}}\n")
+                paths.append(f"s{i}.gdn")
+            want_failed = sum(1 for k in combo if KINDS[k][1])
+            for flt in (None, "same"):
+                r = clijobs.run(ctx.binary, ["test"] + ([] if flt is None else ["-n", flt]) + paths, cwd=d, stdin=b"", timeout=120)
+                failed, summary, problems = parse(r["out"])
+                n += 1
+                label = f"same-named tests [{', '.join(combo)}] in {nfiles} files" + ("" if flt is None else " with a filter")
+                detail = {"files": {p_: open(os.path.join(d, p_)).read() for p_ in paths}, "stdout": r["out"][-1500:], "exit": r["rc"], "expected_failures": want_failed}
+                cmd = "garden test " + " ".join(paths)
+                if r["rc"] in (101, 134) or (isinstance(r["rc"], int) and r["rc"] < 0):
+                    ctx.violation(f"{label}: `garden test` dies", detail, cli_cmd=cmd)
+                elif summary is None or summary[0] != nfiles:
+                    ctx.violation(f"{label}: {nfiles} tests selected but the summary says otherwise", detail, cli_cmd=cmd)
+                elif len(failed) != want_failed or summary[2] != want_failed:
+                    ctx.violation(f"{label}: a test's verdict is not the verdict of its own body", detail, cli_cmd=cmd)
+                elif (r["rc"] != 0) != (want_failed > 0):
+                    ctx.violation(f"{label}: exit status does not follow the verdicts", detail, cli_cmd=cmd)
+                ctx.outcome("same-named tests: " + ("some fail" if want_failed else "all pass"))
     return n
 
 
@@ -273,6 +309,8 @@ def run(ctx):
     if n_ok_exit == 0 or n_fail_exit == 0:
         raise Machinery(f"vacuous: exit 0 x{n_ok_exit}, exit 1 x{n_fail_exit}")
     n_int = interrupted_family(ctx, root)
+    n_same = same_name_family(ctx, root)
+    ctx.bound("same_name_invocations", n_same)
     ctx.add(states=len(layouts) + n_int, transitions=len(jobs) + n_int, nontrivial=sum(1 for l in layouts if sum(len(f) for f in l) > 1) + n_int)
     ctx.bound("invocation_layouts", len(layouts))
     ctx.bound("garden_test_runs", len(jobs))
